@@ -1,11 +1,84 @@
 package file
 
 import (
+	"encoding/binary"
 	"fmt"
 	"strings"
 
 	"github.com/edutko/jks-go/keystore"
 )
+
+// jksLengthsPlausible walks the entries of a JKS/JCEKS keystore and refuses length fields that exceed the bytes that
+// follow them. jks-go allocates make([]byte, n) from 32-bit lengths taken from the file before reading, so a
+// 40-byte file could otherwise demand 4 GB. Secret-key entries (serialized Java objects) end the walk.
+func jksLengthsPlausible(data []byte) bool {
+	if len(data) < 12 {
+		return true // too short: the library reports it
+	}
+	off := 12
+	need := func(n uint64) bool { return n <= uint64(len(data)-off) }
+	u16 := func() (uint64, bool) {
+		if !need(2) {
+			return 0, false
+		}
+		v := uint64(binary.BigEndian.Uint16(data[off:]))
+		off += 2
+		return v, true
+	}
+	u32 := func() (uint64, bool) {
+		if !need(4) {
+			return 0, false
+		}
+		v := uint64(binary.BigEndian.Uint32(data[off:]))
+		off += 4
+		return v, true
+	}
+	skip := func(n uint64, ok bool) bool {
+		if !ok {
+			return true // truncated inside a field: the library reports it
+		}
+		if !need(n) {
+			return false // the field promises more bytes than are there
+		}
+		off += int(n)
+		return true
+	}
+	count := binary.BigEndian.Uint32(data[8:12])
+	for i := uint32(0); i < count && off < len(data); i++ {
+		typ, ok := u32()
+		if !ok {
+			return true
+		}
+		if !skip(u16()) { // alias
+			return false
+		}
+		if !skip(8, true) { // date
+			return true
+		}
+		certs := uint64(1)
+		switch typ {
+		case 1:
+			if !skip(u32()) { // encrypted key
+				return false
+			}
+			if certs, ok = u32(); !ok {
+				return true
+			}
+		case 2:
+		default:
+			return true // secret-key entry or unknown: not walked
+		}
+		for c := uint64(0); c < certs && off < len(data); c++ {
+			if !skip(u16()) { // certificate type
+				return false
+			}
+			if !skip(u32()) { // certificate bytes
+				return false
+			}
+		}
+	}
+	return true
+}
 
 func parseJKSEntry(e keystore.Entry) Info {
 	info := Info{
